@@ -84,3 +84,35 @@
         for f in failures.iter().take(5) { println!("FAILING INPUT: {}", f); }
         assert!(failures.is_empty());
     }
+
+    /// COMPLETE over single characters: every Unicode scalar value, alone (optimised path first) and after a character that forces the
+    /// general path, through the real plugin with an empty table and with a table that exempts a few characters, against the
+    /// per-character rule of the statement.
+    #[test]
+    fn verif_oracle_every_scalar_value_through_the_plugin() {
+        let mut failures = Vec::new();
+        let mut cases = 0usize;
+        for (ignore, table) in [(&[][..], &[][..]), (&['Ａ', 'ｶ', '゛', 'ヿ', '㍿'][..], &[("ｳﾞ", "ヴ"), ("か゛", "が")][..])] {
+            let mut def = String::new();
+            for c in ignore.iter() { def.push(*c); def.push('\n'); }
+            for (k, v) in table.iter() { def.push_str(&format!("{} {}\n", k, v)); }
+            let mut plugin = DefaultInputTextPlugin::default();
+            plugin.read_rewrite_lists(std::io::Cursor::new(def.as_bytes())).expect("rewrite table");
+            for cp in 0..=0x10FFFFu32 { if let Some(ch) = char::from_u32(cp) {
+                if cp == 0 { continue; }
+                for prefix in ["", "ǅ"] {
+                    cases += 1;
+                    let t = format!("{}{}", prefix, ch);
+                    let mut buf = InputBuffer::from(t.as_str());
+                    if plugin.rewrite(&mut buf).is_err() { failures.push(format!("text {:?}: rewrite fails", t)); continue; }
+                    let want = reference(&t, table, ignore);
+                    if buf.current() != want && failures.len() < 50 {
+                        failures.push(format!("text {:?} (U+{:04X}) with table {:?} and exempt characters {:?}: normalised to {:?}, specification gives {:?}", t, cp, table, ignore, buf.current(), want));
+                    }
+                }
+            }}
+        }
+        println!("verif_oracle_every_scalar_value_through_the_plugin: {} cases, {} failures", cases, failures.len());
+        for f in failures.iter().take(5) { println!("FAILING INPUT: {}", f); }
+        assert!(failures.is_empty());
+    }
